@@ -721,11 +721,12 @@ impl Word {
 
         let empty: String = String::new();
         let mut bound_repl_str = None;
-        let mut strip_tone = false;
 
         let mut buffer = String::new();
 
         for (i, syll) in self.syllables.iter().enumerate() {
+            // a tone is dropped only for the syllable in which an alias matched it
+            let mut strip_tone = false;
             match syll.stress {
                 StressKind::Primary => buffer.push('ˈ'), 
                 StressKind::Secondary => buffer.push('ˌ'),
@@ -745,6 +746,7 @@ impl Word {
                         let back_pos = j;
                         let mut is_match = true;
                         let mut plus_match_len = false;
+                        let mut matched_tone = false;
                         for segtype in segments {
                             if j >= syll.segments.len() {
                                 is_match = false; break;
@@ -755,7 +757,7 @@ impl Word {
                                         let (m, maybe_len, maybe_tone) = self.alias_match_ipa_with_mods(i, j, segment, mods);
                                         if !m { is_match = false; break; }
                                         if let Some(len) = maybe_len { j+=len; } else { j+=1; }
-                                        if maybe_tone { strip_tone = true; }
+                                        if maybe_tone { matched_tone = true; }
                                     } else {
                                         if j >= syll.segments.len() || syll.segments[j] != *segment {
                                             is_match = false; break;
@@ -767,11 +769,12 @@ impl Word {
                                     let (m, maybe_len, maybe_tone) = self.alias_match_modifiers(i, j, modifiers);
                                     if !m { is_match = false; break; }
                                     if let Some(len) = maybe_len { j+=len; plus_match_len = true; } else { j+=1; }
-                                    if maybe_tone { strip_tone = true; }
+                                    if maybe_tone { matched_tone = true; }
                                 },
                             }
                         }
                         if is_match {
+                            if matched_tone { strip_tone = true; }
                             match &alias.output.kind {
                                 AliasParseElement::Replacement(repl, plus) => {
                                     if *plus {
